@@ -1,0 +1,19 @@
+//go:build verif
+
+// Contracts for the verification harness in /verif (comment-only; no declarations).
+package metrics
+
+//@ global-nonnil metricsCache registerer
+//@ global-invariant [C13,C20] metricsCache.cache != nil
+//@ entry-invariant [C20,C13] *cachedInstrumentation: v != nil && v.Collector != nil && v.Trace != nil
+
+//@ func InstrumentClientWithConstLabels(controllerName, controllerType, hookType, c, url) (client, err)
+//@   requires c != nil
+//@   safety C13,C20
+//@   ensures [C20] err == nil ==> client != nil
+
+//@ func getOrCreateMetrics(key, hookType, constLabels) (inst, err)
+//@   safety C13,C20
+//@   bind call Cache.Get: cached, found
+//@   at Register(r, c) [C20]: called(Cache.Get) && !found
+//@   ensures [C20] err == nil ==> inst != nil && inst.Collector != nil && inst.Trace != nil
